@@ -25,8 +25,9 @@ Inductive bkind := Identity | SVD | RandProj.
    examples kept, so that the token is canonical);
    its matrix has [cols] columns *)
 Record btok := { bt_kind : bkind; bt_k : option nat; bt_data : data; bt_cols : nat }.
-(* b_modes: the attribute n_basis_modes; b_user: ghost copy of what the USER configured (constructor argument or
-   update_n_basis_modes); they differ exactly when fit froze a default *)
+(* b_modes: the attribute n_basis_modes; b_user: what the USER configured (constructor argument or update_n_basis_modes;
+   in the code: the value together with the flag _n_basis_modes_is_default); they differ exactly when an Identity basis
+   with the default setting has been fitted (b_modes then holds the number of examples of the LAST fit) *)
 Record basis_st := { bk : bkind; b_modes : option nat; b_user : option nat; b_fit : option btok }.
 
 (* basis.fit(X).  Outside the modelled domain (SVD asked for more modes than features/examples) the model
@@ -34,9 +35,9 @@ Record basis_st := { bk : bkind; b_modes : option nat; b_user : option nat; b_fi
 Definition basis_fit (b : basis_st) (d : data) : basis_st + err :=
   match bk b with
   | Identity =>
-      match b_modes b with
+      match b_user b with       (* no count configured by the user: the default (all examples) is recomputed at every fit *)
       | None => let t := {| bt_kind := Identity; bt_k := Some (d_rows d); bt_data := d; bt_cols := d_rows d |} in
-                inl {| bk := Identity; b_modes := Some (d_rows d); b_user := b_user b; b_fit := Some t |}   (* default is frozen here *)
+                inl {| bk := Identity; b_modes := Some (d_rows d); b_user := b_user b; b_fit := Some t |}
       | Some k => if d_rows d <? k then inr ValueError
                   else inl {| bk := Identity; b_modes := Some k; b_user := b_user b;
                               b_fit := Some {| bt_kind := Identity; bt_k := Some k; bt_data := d; bt_cols := k |} |}
